@@ -10,6 +10,7 @@ import json, os, subprocess, sys, time
 ROOT = os.path.dirname(os.path.abspath(__file__))
 C18 = os.path.join(ROOT, "c18")
 REPO = os.environ.get("VERIF_REPO", "/repo").rstrip("/") or "/repo"
+EVID_DIR = os.path.join(os.path.dirname(os.path.abspath(__file__)), "evidence") if REPO == "/repo" else os.path.join(os.path.dirname(os.path.abspath(__file__)), "sim", "target", "alt", "evidence")
 if REPO != "/repo":
     # scratch copy of the repository (seeded changes): a generated manifest with its own target dirs
     import hashlib, shutil
@@ -109,7 +110,7 @@ def miri(input_id, pool, rate, seeds, single=None):
 
 def main(prop, tier, seed):
     t0 = time.time()
-    os.makedirs(os.path.join(ROOT, "evidence"), exist_ok=True)
+    os.makedirs(EVID_DIR, exist_ok=True)
     os.makedirs(os.path.join(ROOT, "replays"), exist_ok=True)
     build()
     violations = []
@@ -266,7 +267,7 @@ def main(prop, tier, seed):
         "wall_s": round(wall, 2),
         "violations": len(violations),
     }
-    json.dump(evid, open(os.path.join(ROOT, "evidence", "C18.json"), "w"), indent=1)
+    json.dump(evid, open(os.path.join(EVID_DIR, "C18.json"), "w"), indent=1)
     print(f"[C18 {tier}] miri_runs={miri_runs} shim_runs={shim_runs} distinct_schedule_tuples={len(tuples) + shim_runs} native_comparisons={native_cmp} "
           f"violations={len(violations)} wall={wall:.1f}s")
     return 1 if violations else 0
